@@ -11,15 +11,15 @@ from ..base import Outcome, run
 from ..cmp import arrays_match, tol_for
 from ..codec import dec
 from ..floxcall import reduce_kwargs, to_dask
-from ..sched import ORDERS, OwnedScheduler, digest
+from ..sched import ORDERS, OwnedScheduler, array_digest, digest
 from . import c02, c10
 
 ID = "C13"
 RULE = (
     "Hypothesis: graphs of C02-style reduce cases (all strategies, engines numpy/flox/numbagg/None, all reductions incl. "
     "arg*, first/last, var) and C10-style scan cases, 1-12 blocks, optimised or unoptimised, executed by the harness-owned "
-    "scheduler in a drawn order. Oracle per task: digest of every dependency value and of the task object itself (its "
-    "embedded arguments: label blocks, aggregation, expected groups) unchanged by execution; a second execution on the "
+    "scheduler in a drawn order. Oracle per task: digest of every dependency value and of all array data embedded in the "
+    "task object itself (label blocks, expected groups) unchanged by execution; a second execution on the "
     "same inputs deep-equals the first; cloudpickle.loads(dumps(task)) executed on the same inputs deep-equals the first. "
     "Whole run: digests of the user's value and label arrays unchanged; after the graph finished, a drawn subset of tasks "
     "is executed again in a drawn order on the retained inputs and must reproduce the recorded outputs ('lost worker'); "
@@ -99,17 +99,13 @@ def execute(case) -> Outcome:
         return out
     d_arr, d_by = digest(arr), digest(by)
     rtol, atol = tol_for(func, arr.dtype)
-    plain = run(lambda: dask.compute(*lazies, scheduler="sync"))
-    if not plain.ok:
-        out.label(f"compute-{plain.kind}")  # C02/C19's business
-        return out
-
     problems = []
 
     def on_task(k, node, inputs):
         kname = k[0] if isinstance(k, tuple) else k
         layer = str(kname).rsplit("-", 1)[0]
         before = {d: digest(v) for d, v in inputs.items()}
+        dnode = array_digest(node)
         try:
             pk = cloudpickle.dumps(node)
         except Exception as e:  # noqa: BLE001
@@ -121,13 +117,8 @@ def execute(case) -> Outcome:
         if before != after:
             bad = [d for d in before if before[d] != after[d]]
             problems.append((("input-mutated", layer), f"task {k!r} modified its input(s) {bad!r}"))
-        if pk is not None:
-            try:
-                pk2 = cloudpickle.dumps(node)
-                if pk2 != pk:
-                    problems.append((("task-args-mutated", layer), f"task {k!r}: its embedded arguments changed during execution"))
-            except Exception:  # noqa: BLE001
-                pass
+        if array_digest(node) != dnode:
+            problems.append((("task-args-mutated", layer), f"task {k!r}: its embedded arguments changed during execution"))
         res2 = node(inputs)
         if digest(res2) != dres:
             problems.append((("not-repeatable", layer), f"task {k!r}: second execution on the same inputs gave a different value"))
@@ -143,9 +134,15 @@ def execute(case) -> Outcome:
 
     sched = OwnedScheduler(case["order"], seed=case["seed"], on_task=on_task, retain=True)
     r = run(lambda: dask.compute(*lazies, scheduler=sched, optimize_graph=case["optimize"]))
+    # the plain run comes AFTER the instrumented one: graphs embed their input blocks, so an impure task in
+    # an earlier run would hide its own effect from a later instrumented run
+    plain = run(lambda: dask.compute(*lazies, scheduler="sync"))
+    if not plain.ok:
+        out.label(f"compute-{plain.kind}")  # C02/C19's business
+        return out
     if r.kind != "value":
         et, fr = r.errsig()
-        out.add(("exception", et, fr), f"owned scheduler run failed: {r.describe()}")
+        out.add(("exception", et, fr), f"owned scheduler run failed although the sync run works: {r.describe()}")
         return out
     nblocks = 1
     if case["kind"] == "reduce":
